@@ -256,9 +256,6 @@ def check_wrapper(ex, finished, row, extra_obs, kwnames=None):
                z3.Or(goal, sp.noop),
                'call of %s at line %s has the documented routine and '
                'actuals' % (rec.name, rec.line), rec.line)
-            ob('gil', [], z3.BoolVal(bool(rec.args.get('gil_released'))),
-               '%s at line %s runs with the GIL released' % (rec.name,
-                                                             rec.line))
             summ['calls'].append(rec.name)
         expected = z3.And(z3.Not(sp.noop), z3.Or([c.when for c in sp.calls])
                           ) if sp.calls else z3.BoolVal(False)
